@@ -45,7 +45,11 @@ func TestMain(m *testing.M) {
 		reps = 64
 	}
 	var err error
-	node, err = boot.Start()
+	if d := os.Getenv("VERIF_C01_NODEDIR"); d != "" {
+		node, err = boot.StartAt(d)
+	} else {
+		node, err = boot.Start()
+	}
 	if err != nil {
 		fmt.Println("VERIF-INCONCLUSIVE boot:", err)
 		os.Exit(1)
@@ -53,7 +57,9 @@ func TestMain(m *testing.M) {
 	genesisRoot = boot.Chain().TopBlock().StateTree
 	code := m.Run()
 	stats.Flush("C01")
-	node.Stop()
+	if os.Getenv("VERIF_C01_NODEDIR") == "" {
+		node.Stop()
+	}
 	os.Exit(code)
 }
 
@@ -507,5 +513,162 @@ func TestChangeAssetsDirect(t *testing.T) {
 			key = fmt.Sprintf("%s|%v", bal, targets)
 		}
 		stats.Case(key, fmt.Sprintf("direct_targets_%d", len(targets)))
+	})
+}
+
+// ---------- warm process vs. brand-new process on the SAME stores ----------
+
+type coldJob struct {
+	ParentRoot   string
+	ParentHeight uint64
+	Height       uint64
+	Castor       byte
+	Group        []byte
+	Salt         string
+	Txs          []byte
+}
+
+// TestChildColdExec runs only in a child process: it boots over a COPY of the parent's node directory
+// and executes the given blocks, last one first, each on its recorded parent root.
+func TestChildColdExec(t *testing.T) {
+	path := os.Getenv("VERIF_C01_COLD")
+	if path == "" {
+		t.Skip("child mode only")
+	}
+	raw, err := os.ReadFile(path)
+	if err != nil {
+		t.Fatal(err)
+	}
+	var jobs []coldJob
+	if err := json.Unmarshal(raw, &jobs); err != nil {
+		t.Fatal(err)
+	}
+	outs := make([]outcome, len(jobs))
+	for i := len(jobs) - 1; i >= 0; i-- {
+		j := jobs[i]
+		txs, err := types.UnMarshalTransactions(j.Txs)
+		if err != nil {
+			t.Fatal(err)
+		}
+		outs[i] = render(boot.Exec(common.HexToHash(j.ParentRoot), j.ParentHeight, hdr(j.Salt, j.Height, j.Castor, j.Group), txs, "fullverify"))
+	}
+	b, _ := json.Marshal(outs)
+	if err := os.WriteFile(path+".out", b, 0o644); err != nil {
+		t.Fatal(err)
+	}
+}
+
+func runColdChild(jobs []coldJob) ([]outcome, error) {
+	dir, err := os.MkdirTemp("", "c01cold-")
+	if err != nil {
+		return nil, err
+	}
+	defer os.RemoveAll(dir)
+	nodeCopy := dir + "/node"
+	if out, err := exec.Command("cp", "-r", node.Dir, nodeCopy).CombinedOutput(); err != nil {
+		return nil, fmt.Errorf("copy stores: %v %s", err, out)
+	}
+	path := dir + "/jobs.json"
+	b, _ := json.Marshal(jobs)
+	if err := os.WriteFile(path, b, 0o644); err != nil {
+		return nil, err
+	}
+	cmd := exec.Command(selfExe, "-test.run", "^TestChildColdExec$", "-test.timeout", "120s")
+	cmd.Dir = dir
+	cmd.Env = append(os.Environ(), "VERIF_C01_COLD="+path, "VERIF_C01_NODEDIR="+nodeCopy, "VERIF_OUT=", "TMPDIR="+dir)
+	out, err := cmd.CombinedOutput()
+	if err != nil {
+		return nil, fmt.Errorf("child failed: %v\n%s", err, out)
+	}
+	raw, err := os.ReadFile(path + ".out")
+	if err != nil {
+		return nil, err
+	}
+	var outs []outcome
+	return outs, json.Unmarshal(raw, &outs)
+}
+
+// TestMinerHistoriesWarmVsFresh: miner-heavy histories (the registry is consulted through several lookup
+// paths that invite caching). The process that executed the whole history - and therefore has every
+// process-local cache warm - must agree, block by block, with a brand-new process that opens the same
+// stores and executes the blocks in reverse order without ever having seen the earlier ones.
+func TestMinerHistoriesWarmVsFresh(t *testing.T) {
+	stats.Check(t, 45, 300, func(t *rapid.T) {
+		saltCounter++
+		salt := fmt.Sprintf("c01m-%d-%d", os.Getpid(), saltCounter)
+		root, height := genesisRoot, uint64(0)
+		var fund []*types.Transaction
+		for i := 0; i < 4; i++ {
+			fund = append(fund, txgen.Transfer(txgen.Faucets[0], nil, [][2]string{{blockgen.Addr(i), "9000"}}, uint64(i+1), fmt.Sprintf("%s-f%d", salt, i)))
+		}
+		group := []byte("no-such-group")
+		r1 := boot.Exec(root, 0, hdr(salt, 1, 1, group), fund, "fullverify")
+		if r1.Panic != nil {
+			t.Fatalf("funding panicked: %v", r1.Panic)
+		}
+		nr, err := boot.Persist(r1.State)
+		if err != nil {
+			t.Fatal(err)
+		}
+		root, height = nr, 1
+		var jobs []coldJob
+		var warm []outcome
+		var fingerprint []string
+		nonces := map[int]uint64{}
+		nBlocks := rapid.IntRange(3, 7).Draw(t, "nBlocks")
+		for b := 0; b < nBlocks; b++ {
+			var txs []*types.Transaction
+			var meta []blockgen.Tx
+			for i, n := 0, rapid.IntRange(1, 3).Draw(t, "nTx"); i < n; i++ {
+				src := rapid.IntRange(0, 3).Draw(t, "src")
+				nonces[src]++
+				x := blockgen.GenMiner(t, src, nonces[src], fmt.Sprintf("%s-b%d-%d", salt, b, i))
+				meta = append(meta, x)
+				txs = append(txs, x.Tx)
+			}
+			nextHeight := height + rapid.SampledFrom([]uint64{1, 1, 350}).Draw(t, "heightInc")
+			res := boot.Exec(root, height, hdr(salt, nextHeight, 1, group), txs, "fullverify")
+			if res.Panic != nil {
+				t.Fatalf("executor panicked: %v\nblock: %s", res.Panic, descs(meta))
+			}
+			o := render(res)
+			warm = append(warm, o)
+			jobs = append(jobs, coldJob{ParentRoot: root.Hex(), ParentHeight: height, Height: nextHeight, Castor: 1, Group: group, Salt: salt, Txs: mustMarshalTxs(txs)})
+			for i, m := range meta {
+				st := "?"
+				if i < len(res.Receipts) {
+					st = fmt.Sprint(res.Receipts[i].Status)
+				}
+				fingerprint = append(fingerprint, m.Desc+"="+st)
+			}
+			nr, err := boot.Persist(res.State)
+			if err != nil {
+				t.Fatal(err)
+			}
+			root, height = nr, nextHeight
+		}
+		// the warm process itself, blocks in reverse order
+		for i := len(jobs) - 1; i >= 0; i-- {
+			j := jobs[i]
+			txs, _ := types.UnMarshalTransactions(j.Txs)
+			again := render(boot.Exec(common.HexToHash(j.ParentRoot), j.ParentHeight, hdr(j.Salt, j.Height, j.Castor, j.Group), txs, "fullverify"))
+			if d := warm[i].diff(again); d != "" {
+				t.Fatalf("re-executing block %d of the history (same parent root, same header, same txs) after later blocks disagrees with its first execution: %s\nhistory: %s", i, d, strings.Join(fingerprint, "; "))
+			}
+		}
+		cold, err := runColdChild(jobs)
+		if err != nil {
+			t.Fatalf("VERIF-INCONCLUSIVE cold child: %v", err)
+		}
+		for i := range jobs {
+			if d := warm[i].diff(cold[i]); d != "" {
+				t.Fatalf("a brand-new process on the same stores disagrees with the process that executed the history, at block %d: %s\nhistory: %s", i, d, strings.Join(fingerprint, "; "))
+			}
+		}
+		stats.Count("cold_process_blocks", int64(len(jobs)))
+		stats.Case("minerhist:"+strings.Join(fingerprint, ";"), "miner_history")
+		if len(fingerprint) < 8 {
+			stats.Sample(map[string]interface{}{"miner_history": fingerprint})
+		}
 	})
 }
